@@ -153,10 +153,10 @@ func (m *groupMachine) init() gstate {
 
 func (m *groupMachine) enabled(s *gstate, oi int) bool { return true }
 
+// fieldBig: the value a field element denotes = the integer its limbs represent,
+// mod p (Normalize/GetB32 are judged by the field machine, not relied upon here)
 func fieldBig(f *secp256k1.Field) *big.Int {
-	c := *f
-	c.Normalize()
-	return new(big.Int).SetBytes(b32of(&c))
+	return refsecp.FMod(limbsValue(f.VerifLimbs()))
 }
 
 // affineOf converts a Jacobian register to the affine point it denotes, with
